@@ -17,7 +17,7 @@ def selftest(tier):
 
 
 def obligations(tier, seed):
-    t = 900 if tier == 'quick' else 2400
+    t = 450 if tier == 'quick' else 2400
     n = len(skeletons.HOIST_TEMPLATES)
     combos = [(True, False), (True, True), (False, False), (False, True)]
     shards = []
@@ -28,7 +28,7 @@ def obligations(tier, seed):
                 pre = ['k == %d' % k, 'len(A) == %d and len(B) == %d and len(C) == %d' % (L, L, L),
                        '"." not in A and "." not in B and "." not in C', 'rl == %s' % rl, 'rg == %s' % rg]
                 if tier == 'quick' and skeletons.HOIST_TEMPLATES[k][0] in ('one_true_float', 'none_true_bytes'):
-                    pre.append('B == %r' % ('b' * L))     # many hoisted values: pin one hole in the quick tier
+                    pre.append('A == %r and B == %r' % ('a' * L, 'b' * L))     # many hoisted values: pin two holes in the quick tier
                 shards.append(pre)
     return [
         dict(name='C06.hoist_ok', fn='hoist_ok', shards=shards, timeout=t, bounds='see META', public_replay='public_hoist_ok'),
